@@ -9,9 +9,9 @@ import zlib
 import torch
 
 from .core import MachineryError
-from .aggsym_common import (EPS, F64, NORM_EPS, PE_NORM, ROSTER, Acc, build, call, cond_of, config_col, config_exact,
-                            fmt, int_kernel, ld, maxdiff, mgda_gap, narrow_of, norm_eps_side, present, presented,
-                            rat_vec_equal, ref_of, scaled_sides, seed_of, split_padded)
+from .aggsym_common import (EPS, F64, GD_RANDOMISED, NORM_EPS, PE_NORM, ROSTER, Acc, build, build_gd, call, cond_of,
+                            config_col, config_exact, fmt, gd_draw_gap, int_kernel, ld, maxdiff, mgda_gap, narrow_of,
+                            norm_eps_side, present, presented, rat_vec_equal, ref_of, scaled_sides, seed_of, split_padded)
 
 REG_LADDER = [1e-2, 1e-4, 1e-6, 1e-8, 1e-10, 1e-12]
 NORM_VARIANTS = [1e-4, 1e-2, 1e-6]
@@ -58,7 +58,12 @@ def config_degenerate(acc: Acc, pid: str, s: dict, e: int, gkey: str, xs: list, 
     """ConFIG(pref) when the model says the whole preference weight sits on zero-gradient rows: the exact
     direction pinv(U) u is 0, hence the exact result is the zero vector.  ONE stable key per property."""
     acc.count("config_pref_on_zero_rows_cases")
-    bad = [x for x in xs if isinstance(x, str) or bool((x != 0).any())]
+    for x in xs:
+        if isinstance(x, str):      # an exception is NOT the known finding (a garbage vector instead of 0): its own key
+            _report(acc, pid, "ConFIGP", s, e, gkey, "raises", f"ConFIG(pref_vector={s['P']}) raised ({x}) on the finite matrix of "
+                    f"instance {s['id']} ({gkey}, scale 2^{e})", {"seed": seed})
+            return
+    bad = [x for x in xs if bool((x != 0).any())]
     if bad:
         acc.viol.append((f"{pid}:{DEG_KEY}",
                          f"ConFIG(pref_vector={s['P']}) on instance {s['id']} ({gkey}, scale 2^{e}): all preference weight is on "
@@ -349,6 +354,71 @@ def history_calls(acc: Acc, stores: dict, ah, plan: list, Jt: torch.Tensor, Ot: 
     return out
 
 
+def graddrop_cols(acc: Acc, job: dict, s: dict, e: int, Jt: torch.Tensor, gkey: str) -> None:
+    """C08, "every deterministic aggregator, weighted or not, commutes with permuting columns and with appending all-zero
+    columns", for GradDrop in its non-default configurations (spec SymAgg!SymGDVal / SymGDCand, exported as s["gdrop"] for
+    the scenarios whose Q is a column permutation with zero columns, in every presentation of the model):
+      * purity functions with values in {0, 1} ("ge": [P >= 1/2], "gt": [P > 1/2]) make GradDrop deterministic: the
+        value on the transformed, presented matrix is the model's A(J) Q - equality of rationals, the arithmetic is
+        exact (dyadic leaks k/4, integer entries times a power of two) -, exactly 0 on every padded column; without and
+        with the leak vector P / 4;
+      * the randomised purity functions (the default identity - argument omitted -, P^3, sqrt P; same seed) at predicate
+        level: a zero column gets exactly 0, a sign-pure column its decided value, a mixed column one of the model's
+        two candidates ("positive entries kept" / "negative entries kept", each plus the leaked share of the others) -
+        which is what "the layout of the parameters never changes the update" leaves of the law when a draw per
+        position is involved.  Exact ties f(P) = U of the draw are excluded (gd_draw_gap) and counted."""
+    g = s.get("gdrop")
+    if not g or not g["on"]:
+        return
+    pid, only = job["pid"], job.get("only")
+    wk = s["pad"].get("wk", 0)
+    rep_ = 4 ** wk
+    seed = seed_of(job["seed"], s["id"], e % 97)
+    ptag = ":presented" if presented(s) else ""
+    todo = [("value", v["f"], v["leak"], v) for v in g["vals"]] + \
+           [("candidates", f, c["leak"], c) for c in g["cand"] for f in GD_RANDOMISED]
+    for clause, f, leak, data in todo:
+        vname = f"GradDrop[f={f}{',leak=P/4' if leak else ''}]"
+        if only and only != vname:
+            continue
+        if gd_draw_gap(f, Jt, seed) < 1e-9:
+            acc.count("skipped:graddrop_draw_ties_the_purity")
+            continue
+        x = call(build_gd(f, s["P"] if leak else None), Jt, seed)
+        acc.evals += 1
+        acc.count(f"graddrop_cases:{clause}{':leak' if leak else ''}{ptag}")
+        if isinstance(x, str):
+            _report(acc, pid, vname, s, e, gkey, "raises", f"{vname} raised ({x}) on the finite matrix of instance {s['id']} "
+                    f"transformed by {gkey} (P={s['P']}, scale 2^{e})", {"seed": seed})
+            continue
+        xm, xpad = split_padded(x, s)
+        if clause == "value":
+            ok, got = rat_vec_equal(xm, data["val"], e, wk)
+            if not ok or xpad != 0.0:
+                _report(acc, pid, vname, s, e, gkey, "value",
+                        f"{vname} (deterministic: the purity function has values in {{0, 1}}; leak numerators {s['P'] if leak else None}) on "
+                        f"instance {s['id']} transformed by {gkey} (scale 2^{e}) returned {got}"
+                        f"{f' and {xpad:.3e} on a padded all-zero column' if xpad else ''}; A(J)Q is {data['val']}", {"seed": seed})
+            continue
+        sc = torch.ldexp(xm, torch.tensor(wk - e))                       # in the units of the model, exact
+        pos = torch.tensor([q[0] / q[1] for q in data["pos"]], dtype=F64).repeat_interleave(rep_)
+        neg = torch.tensor([q[0] / q[1] for q in data["neg"]], dtype=F64).repeat_interleave(rep_)
+        kind = [k for k in g["kind"] for _ in range(rep_)]
+        is_pos, is_neg = sc == pos, sc == neg
+        okc = torch.tensor([k != "neg" for k in kind]) & is_pos | torch.tensor([k != "pos" for k in kind]) & is_neg
+        n_mixed = sum(1 for k in g["kind"] if k == "mixed")
+        acc.count("graddrop_mixed_columns_compared_with_the_candidates", n_mixed)
+        if len(sc) != len(kind) or not bool(okc.all()) or xpad != 0.0:
+            j = int((~okc).nonzero()[0]) if len(sc) == len(kind) and not bool(okc.all()) else -1
+            _report(acc, pid, vname, s, e, gkey, "candidates",
+                    f"{vname} (same seed; leak numerators {s['P'] if leak else None}) on instance {s['id']} transformed by {gkey} "
+                    f"(scale 2^{e}): " + (f"coordinate {j + 1} (a {kind[j]} column) is {float(sc[j])!r} (units of the model), the candidates are "
+                                          f"positive entries kept {float(pos[j])!r} / negative entries kept {float(neg[j])!r}" if j >= 0 else
+                                          f"{xpad:.3e} on a padded all-zero column"), {"seed": seed})
+        if n_mixed and s["steps"] > 0:
+            acc.nontriv.append((s["id"], gkey, vname))
+
+
 def eval_cols(job: dict):
     """C08: row span, A(JQ) = A(J)Q, column permutations, zero columns."""
     acc = Acc()
@@ -377,6 +447,8 @@ def eval_cols(job: dict):
             Ot = present(ld(s["other"], e, s["den"]), s) if hist_here else None
             if padded:
                 acc.count(f"presented:{s['pad']['lay']}:{'wide' if wk else 'zeros'}")
+            if s["colperm"]:
+                graddrop_cols(acc, job, s, e, Jt, gkey)        # GradDrop in its non-default configurations (own roster)
             for r in ROSTER:
                 if not r["cols"] or (r["kind"] == "conic" and not job.get("cagrad")):
                     continue
@@ -496,6 +568,56 @@ def eval_cols(job: dict):
 
 
 _LADDER_CALLS = [0]          # UPGrad calls of the reg_eps ladder made by THIS process so far
+DTYPES = {"float64": torch.float64, "float32": torch.float32}
+
+
+def config_defined(acc: Acc, pid: str, vname: str, s: dict, e: int, gkey: str, seed: int, Ms: list, why: str | None) -> None:
+    """C09 quantifies c -> A(diag(c) J) over ALL finite matrices: the three values must exist also where nothing can be
+    said about their rounding (rank-ambiguous instances, exact direction null - spec NullLaw).  ConFIG / ConFIG(pref) is
+    called on the three matrices in float64 and in float32 (preference vector in the dtype of the matrix):
+      * an exception on any of them is a violation (clause raises:<dtype>);
+      * on the ZERO matrix the floating-point direction is exactly null whatever the SVD routine does (units = 0,
+        pinv(0) = 0): each value must be the zero vector of the dtype of the matrix (0 = a 0 + b 0);
+      * on the other instances of the model's exactly-null class (axis-aligned opposed rows) it is only COUNTED whether
+        the code's direction came out exactly null - that depends on rounding inside the SVD and is not claimed."""
+    import torchjd.aggregation as A
+    nd = s["nulldir"]
+    null = nd["ones" if vname == "ConFIG" else "pref"]
+    for dname, dt in DTYPES.items():
+        ag = A.ConFIG() if vname == "ConFIG" else A.ConFIG(pref_vector=torch.tensor(s["P"], dtype=dt))
+        xs = [call(ag, M.to(dt), seed) for M in Ms]
+        acc.evals += 3
+        acc.count(f"config_defined_cases:{'zero_matrix' if nd['zero'] else 'exact_direction_null' if null else why or 'regular'}:{dname}")
+        if any(isinstance(x, str) for x in xs):
+            _report(acc, pid, vname, s, e, gkey, f"raises:{dname}",
+                    f"{vname} ({dname}) raised on the finite matrices diag(c) J 2^{e} of instance {s['id']} ({gkey}, P={s['P']}): "
+                    f"{[x if isinstance(x, str) else 'ok' for x in xs]}; c -> A(diag(c) J) must be defined for every positive c"
+                    + ("; the exact direction is null for every c, the identity reads 0 = a 0 + b 0" if null else ""),
+                    {"seed": seed, "dtype": dname})
+            continue
+        zeros = all(x.dtype == dt and not bool((x != 0).any()) for x in xs)
+        if nd["zero"]:
+            if not zeros:
+                _report(acc, pid, vname, s, e, gkey, f"null_direction:{dname}",
+                        f"{vname} ({dname}) on the zero matrix (instance {s['id']}, {gkey}): the direction pinv(0) w is exactly null, every "
+                        f"value must be the zero vector of dtype {dname}; returned {[fmt(x) for x in xs]} "
+                        f"({[str(x.dtype) for x in xs]})", {"seed": seed, "dtype": dname})
+        elif null:
+            acc.count(f"config_axis_aligned_null_direction:{'exactly_null_in_floats' if zeros else 'rounding_noise_in_floats_not_claimed'}:{dname}")
+
+
+def ladder_object(pref, nes: str, ne, k: int, form: str, dflt: dict):
+    """UPGrad for one rung (reg_eps = 10^-k) as the constructor call is WRITTEN (spec Defaults / ArgForms): in the form
+    "omitted" every argument whose value is the documented default is left out, in the form "written" all are given."""
+    import torchjd.aggregation as A
+    kw = {}
+    if pref is not None or form == "written":
+        kw["pref_vector"] = None if pref is None else torch.tensor(pref, dtype=F64)
+    if not (form == "omitted" and nes == dflt["norm_eps"]):
+        kw["norm_eps"] = ne
+    if not (form == "omitted" and k == dflt["reg_exp"]):
+        kw["reg_eps"] = 10.0 ** -k
+    return A.UPGrad(**kw), len(kw)
 
 
 def _spec_norm(M: torch.Tensor) -> float:
@@ -555,6 +677,12 @@ def eval_scale(job: dict):
                     if "ambiguous" in sides or len(set(sides)) > 1:
                         acc.count("skipped:upgrad_norm_eps_threshold_not_uniform")
                         continue
+                    # the documented default of norm_eps: triples on which sigma_max of some but not all of the three
+                    # matrices lies within the decade above it (decided by the same exact bracket against 10 x default)
+                    if nes == s["defaults"]["norm_eps"] and sides[0] == "above":
+                        s10 = {scaled_sides(cls, s["gd"], c, e, 10 * ne)[0] for c in (xc, c1, c2)}
+                        if {"above", "below"} <= s10:
+                            acc.count("ladder_triples_with_sigma_max_within_a_decade_above_the_default_norm_eps_for_some_matrices_only")
                     straddle = sides[0] == "above" and any(x[1] for x in ss)
                     if straddle:
                         acc.count("ladder_triples_with_singular_values_on_both_sides_of_norm_eps")
@@ -563,10 +691,13 @@ def eval_scale(job: dict):
                     if _LADDER_CALLS[0] == 0:
                         acc.count("ladder_walks_descending_first_in_a_process_without_earlier_ladder_calls")
                     outs = {}
-                    orders = [(w, [10.0 ** -k for k in s["ladder"][w]]) for w in ("down", "up")]   # from the model
-                    for walk, order in orders:
-                        for reg in order:
-                            ag = build("UPGradLadder", pref, None, (ne, reg))
+                    for walk in ("down", "up"):                                   # orders and argument forms from the model
+                        form = s["argforms"][walk]
+                        for k in s["ladder"][walk]:
+                            reg = 10.0 ** -k
+                            ag, nkw = ladder_object(pref, nes, ne, k, form, s["defaults"])
+                            if form == "omitted" and nkw < 3:
+                                acc.count("ladder_objects_built_with_default_arguments_omitted")
                             outs[walk, reg] = [call(ag, M, seed) for M in Ms]
                             _LADDER_CALLS[0] += 3
                             acc.evals += 3
@@ -578,6 +709,12 @@ def eval_scale(job: dict):
                     if only and vname != only:
                         continue
                     why = skip_reason(r, cls, e, "scale", s, vname)
+                    if r["name"].startswith("ConFIG"):
+                        null = s["nulldir"]["zero"] or s["nulldir"]["ones" if vname == "ConFIG" else "pref"]
+                        if why or null:
+                            config_defined(acc, pid, vname, s, e, gkey, seed, Ms, why)
+                        if null and not why:
+                            continue           # the zero matrix: everything that can be said has been checked in both dtypes
                     if why:
                         acc.count("skipped:" + why)
                         continue
@@ -599,9 +736,9 @@ def eval_scale(job: dict):
                             acc.count("config_exact_triples_on_which_the_total_length_changes_sign")
                             acc.nontriv.append((s["id"], gkey, vname, "length-sign-change"))
                     if any(isinstance(x, str) for x in xs):
-                        if not all(isinstance(x, str) for x in xs):
-                            _report(acc, pid, vname, s, e, gkey, "raises", f"{vname}: raised on some of the three scalings "
-                                    f"only ({[x if isinstance(x, str) else 'ok' for x in xs]}) instance {s['id']} {gkey}", {"seed": seed})
+                        # every aggregator of the statement is defined on every finite matrix with enough rows
+                        _report(acc, pid, vname, s, e, gkey, "raises", f"{vname}: raised on the finite matrices diag(c) J 2^{e} "
+                                f"({[x if isinstance(x, str) else 'ok' for x in xs]}) instance {s['id']} {gkey}", {"seed": seed})
                         continue
                     if r["kind"] == "exact":
                         key = {"Mean": "mean", "Sum": "sum", "ConstantP": "constP", "ConstantW": "constW"}[r["name"]]
